@@ -62,7 +62,8 @@ def cases(draw, tier):
         names = draw(gen.names_for(len(seqs)))
     cfg = {"type": draw(gen.types_for(ss["kind"])), "threads": draw(gen.threads)}
     cfg["gpo"], cfg["gpe"], cfg["tgpe"] = draw(gen.penalties())
-    return {"names": names, "seqs": seqs, "cfg": cfg, "entry": entry, "kind": ss["kind"], "shape": ss["shape"]}
+    return {"names": names, "seqs": seqs, "cfg": cfg, "entry": entry, "kind": ss["kind"], "shape": ss["shape"],
+            "final_newline": draw(st.sampled_from([True, True, True, False]))}
 
 
 def strategy(tier):
@@ -92,6 +93,8 @@ def classes_of(case, rows):
         c.append("explicit_penalty")
     if rows and oracle.has_gap(rows):
         c.append("gapped")
+    if not case.get("final_newline", True):
+        c.append("no_final_newline")
     if any(" " in n or ":" in n for n in case["names"]):
         c.append("rich_names")
     return c
@@ -112,7 +115,10 @@ def check(case):
             out_names, rows, alnlen = None, r["rows"], r["alnlen"]
         else:
             wd = kal.runner.workdir()
-            fp = wd.write(kal.fasta_bytes(names, seqs, width=0), ".fa")
+            body = kal.fasta_bytes(names, seqs, width=0)
+            if not case.get("final_newline", True) and seqs[-1]:
+                body = body.rstrip(b"\n")      # a file whose last byte is a residue
+            fp = wd.write(body, ".fa")
             if entry == "dump" or entry.startswith("write:"):
                 fmt = entry.split(":")[1] if ":" in entry else None
                 r = kal.run_files([fp], cfg, write=[fmt] if fmt else None)
